@@ -25,6 +25,8 @@ pub fn func(f: &str, a: Vec<T>) -> T { T::Func(f.to_string(), a) }
 
 /// List constructor that keeps the normal form (a list tail is spliced).
 pub fn mk_list(mut elems: Vec<T>, tail: Option<T>) -> T {
+    // a "list" of no elements and a tail is the tail itself
+    if elems.is_empty() { if let Some(t) = tail { return t; } return T::List(elems, None); }
     match tail {
         None => T::List(elems, None),
         Some(T::List(e2, t2)) => { elems.extend(e2); T::List(elems, t2) }
